@@ -382,7 +382,13 @@ type RCase struct {
 	Tpls []TplDef
 	Ops  []SOp
 	Meta map[string]any
+	// options
+	CheckShape bool // after every reset compare VerifCtxShape with a new context's
+	Pool       bool // reset = ReleaseCtx + AcquireCtx
+	KeepOut    bool // fault-free renders go through dyntpl.Render and the returned slices are re-checked at the end
 	// filled by run
+	ShapeDiffs []string
+	Mutated    []string
 	GoRes  []string
 	Panic  string
 	PErr   string
@@ -411,9 +417,58 @@ func (c *RCase) Run() {
 		c.Dumps = append(c.Dumps, string(dyntpl.VerifDumpTree(tree)))
 	}
 	ctx := dyntpl.NewCtx()
+	if c.Pool {
+		ctx = dyntpl.AcquireCtx()
+	}
 	evReset()
 	c.GoRes = c.GoRes[:0]
+	type kept struct {
+		live []byte
+		copy []byte
+		idx  int
+	}
+	var keptOut []kept
+	defer func() {
+		for _, k := range keptOut {
+			if string(k.live) != string(k.copy) {
+				c.Mutated = append(c.Mutated, fmt.Sprintf("bytes returned by render #%d changed from %q to %q", k.idx, k.copy, k.live))
+			}
+		}
+	}()
 	for _, o := range c.Ops {
+		if o.Kind == "reset" && (c.Pool || c.CheckShape) {
+			if c.Pool {
+				dyntpl.ReleaseCtx(ctx)
+				ctx = dyntpl.AcquireCtx()
+			} else {
+				ctx.Reset()
+			}
+			if c.CheckShape {
+				if a, b := string(dyntpl.VerifCtxShape(ctx)), string(dyntpl.VerifCtxShape(dyntpl.NewCtx())); a != b {
+					c.ShapeDiffs = append(c.ShapeDiffs, "after reset: "+a+" vs new: "+b)
+				}
+			}
+			continue
+		}
+		if o.Kind == "render" && c.KeepOut && o.FailAt == 0 {
+			var out []byte
+			var err error
+			func() {
+				defer func() {
+					if x := recover(); x != nil {
+						c.Panic = fmt.Sprintf("render %s: %v\n%s", o.Key, x, trimStack(stack()))
+					}
+				}()
+				out, err = dyntpl.Render(o.Key, ctx)
+			}()
+			if c.Panic != "" {
+				return
+			}
+			keptOut = append(keptOut, kept{live: out, copy: append([]byte(nil), out...), idx: len(c.GoRes)})
+			// Render does not report the number of writes: marked "?" and ignored by the comparison
+			c.GoRes = append(c.GoRes, fmt.Sprintf("%s %s ? %s", errName(err), hx(out), evStr()))
+			continue
+		}
 		if o.Kind != "render" {
 			func() {
 				defer func() {
